@@ -114,6 +114,10 @@ func C13(c *Ctx) {
 		"A <- B \"a\\qc\"\nB <- 'b'\n", "A <- B \"unterminated", "A <- B\nB \"bad\\q name\" <- 'b'\n", "A <- B 'x\xffy'\nB <- 'b'\n", "A <- B \"\\u12\" C\nB <- 'b'\nC <- 'c'\n", "A <- b:B [\\q]\nB <- 'b'\n",
 		// runes whose case folding crosses the Basic Latin boundary
 		"{\npackage p\n}\nA <- [K\u017f\u0130\u0131\u212a]i [\u212a-\u212b]i '\u017f'i \"\u212a\"i [^\u0130]i [\u00b5\u03bc\u1e9e\u00df]i\n",
+		// nested repetition / option operators, literally and through an inlined leaf rule
+		"{\npackage p\n}\nA <- ('a'?)* 'b'\n", "{\npackage p\n}\nA <- Sep+ 'x' (Sep*)* (Sep?)? ('y'*)+\nSep <- ' '?\n", "{\npackage p\n}\nA <- (('a'+)?)* (B*)?\nB <- 'b'*\n",
+		// a recovery operator around a bare matcher / throw / predicate, its recovery expression starting with a rule reference
+		"{\npackage p\n}\nA <- ',' //{e} Skip\nSkip <- [^,]*\n", "{\npackage p\n}\nA <- %{e} //{e} Junk 'x'\nJunk <- .\n", "{\npackage p\n}\nA <- x:'a'? //{e} B / &{ return true, nil } //{e} B\nB <- A / 'b'\n",
 		// code blocks that are empty up to blank space and line ends
 		"{\npackage p\n}\nA <- 'a' {\n\n}\n", "{\npackage p\n}\nA <- 'a' {\r\n\n}\n", "{\npackage p\n}\nA <- 'a' {}\n", "{\npackage p\n}\nA <- 'a' {\n} B\nB <- &{\n\n} #{ \n } !{\t}\n", "{\n\n}\nA <- 'a'\n", "{}\nA <- 'a' { \r }\n",
 		// a dash next to a Unicode class escape inside a class
